@@ -113,9 +113,8 @@ PARTIAL_FUNCS = ('getitem', 'maxwidth', 'splitcomp', 'date_bin', 'interval', 'ro
 
 
 def agg_dtype_of_operand(name, ov):
-    """EvalAggregator.__init__: `dtype or operands[0].dtype` -- first/last/min/max and sum over int/Decimal take
-    the dtype of their operand (so sum(bool) is bool)."""
-    return ov[4] and (name in ('first', 'last', 'min', 'max') or (name == 'sum' and ov[1] in (['int'], ['Decimal'])))
+    """EvalAggregator.__init__: `dtype or operands[0].dtype` -- first/last/min/max take the dtype of their operand."""
+    return ov[4] and name in ('first', 'last', 'min', 'max')
 
 
 def agg_out(name, ov, argty):
@@ -447,7 +446,9 @@ class Gen:
                 for _ in range(rng.randint(1, 3)):
                     for _ in range(10):
                         k = self.anyexpr(tbl, depth - 1, 'row')
-                        if self.reg.hashable(k.ty) and k.ty != '*':
+                        # keys must be pairwise different NODES: distinct texts, at most one column-free key (1 == TRUE == 1.0)
+                        if (self.reg.hashable(k.ty) and k.ty != '*' and k.text not in [x.text for x in keys]
+                                and (k.col or all(x.col for x in keys))):
                             keys.append(k)
                             break
             shown = [k for k in keys if shape == 'implicit' or rng.random() < 0.7]
@@ -481,6 +482,10 @@ class Gen:
         if rng.random() < 0.25:
             st['limit'] = rng.choice([0, 1, 2, 10, 9223372036854775807])
         return st
+
+    def _dtype_eq_cols(self, tbl):
+        """Tables whose columns are all instances of one accessor class (== compares the dtype only)."""
+        return tbl.name not in ('t', 'u', 'postings', 'entries', '(sub)')
 
     def _refname(self, targets, i):
         """A name under which target i can be referenced (alias or bare column name), if it is unambiguous."""
